@@ -5,6 +5,7 @@
 package esmodel
 
 import (
+	"encoding/json"
 	"fmt"
 	"math"
 	"sort"
@@ -486,6 +487,20 @@ func (w *World) arraySetLength(o *Obj, d *Desc) (bool, Abrupt) {
 	}
 	nd := *d
 	num, ok := ToNumberPrim(d.Value)
+	if d.Value.K == 'a' {
+		// ArraySetLength converts the value twice (ToUint32, then ToNumber): the valueOf of an adversarial value
+		// runs its operation both times, before the current length descriptor is read
+		var adv Op
+		if err := json.Unmarshal([]byte(d.Value.S), &adv); err != nil {
+			return false, "unmodelled"
+		}
+		for i := 0; i < 2; i++ {
+			if _, modelled := w.Apply(&adv); !modelled {
+				return false, "unmodelled"
+			}
+		}
+		num, ok = d.Value.N, true
+	}
 	if !ok {
 		if d.Value.K == 'y' {
 			return false, "TypeError"
